@@ -1,7 +1,7 @@
 (* C04 -- the decoder accepts every valid BER form of a message, not only its own. *)
 From Coq Require Import ZArith NArith List.
 From Coq.Strings Require Import Byte.
-From SV Require Import Base.Bytes Base.Py Gen.Generated Asn1.Model Asn1.TlvProofs Asn1.Lenient
+From SV Require Import Gen.Sharing Base.Bytes Base.Py Gen.Generated Asn1.Model Asn1.TlvProofs Asn1.Lenient
   Msg.Types Msg.Encode Msg.Decode Msg.RoundTrip Msg.Peer Msg.Lenient.
 Import ListNotations.
 Local Open Scope N_scope.
@@ -82,8 +82,16 @@ Proof.
   - vm_compute. discriminate.
 Qed.
 
+(* The theorems above are about functions and values; that the message codec (_messages.py, _controls.py, _authentication.py, asn1.py, the BER half of _filter.py) keeps no state
+   between calls and shares none between objects is read off the source by tools/audit.py on every run
+   (Gen/Sharing.v): no memoisation, no module- or class-level container that is written, no mutable default, no
+   attribute written behind a dataclass, no parameter stored without a copy. *)
+Theorem C04_audit_no_state_between_calls : (hidden_state_messages ++ hidden_state_controls ++ hidden_state_authentication ++ hidden_state_asn1 ++ hidden_state_filter_ber = [])%list.
+Proof. exact eq_refl. Qed.
+
 Print Assumptions C04_any_length_form.
 Print Assumptions C04_peer_encodings_decode_alike.
 Print Assumptions C04_peer_round_trip.
 Print Assumptions C04_minimal_lengths_are_valid.
 Print Assumptions C04_four_octet_lengths_are_valid.
+Print Assumptions C04_audit_no_state_between_calls.
